@@ -32,7 +32,7 @@ func zeroRepr(r *gen.Rand, k int) (*field.Element, string) {
 
 // C13: extended-coordinate import/export is validated and faithful.
 func C13(c *Ctx) {
-	n := c.N(160000, 4000000)
+	n := c.N(160000, 12000000)
 	for i := int64(0); i < n; i++ {
 		if !c.Mine(i) {
 			continue
